@@ -175,11 +175,18 @@ def r20_3(ctx):
 
 
 class Axes(StandIn):
-    def __init__(self):
+    def __init__(self, face="white"):
         self.calls = []
+        self.face = face
 
     def set_facecolor(self, c):
         self.calls.append(("facecolor", c))
+        self.face = c
+
+    def get_facecolor(self):
+        return self.face
+
+    get_fc = get_facecolor
 
     def add_patch(self, p):
         self.calls.append(("patch", p))
@@ -255,11 +262,11 @@ class Cur(StandIn):
         return self.loop
 
 
-def plot_run(ctx, shape, kind):
+def plot_run(ctx, shape, kind, face="white"):
     fn = ctx.fn("plot.ShapePloter.plot_shape")
     global _CTX
     _CTX = ctx
-    ax = Axes()
+    ax = Axes(face)
     P = Obj("ploter")
 
     def hook(rn, ev, call, name, recv, args, kwargs):
@@ -324,6 +331,16 @@ def r20_4(ctx):
                     where=fn.where(), detail="; ".join(errs))
         else:
             out.ok(fn.qname, "mixed DisjointShape: per-component fill / hole, outline and scatter per curve", where=fn.where())
+        # the same picture on axes whose background an earlier plot has already coloured: the hole is white all the same
+        calls = plot_run(ctx, D, "DisjointShape", face="#BFFFBF")
+        fills = [c[1] for c in calls if c[0] == "patch" and c[1][1][0] == "fillpath"]
+        holes = [f for f in fills if f[1][1] == "plane_minus_square"]
+        if len(holes) != 1 or holes[0][2] != "white":
+            out.bad(fn.qname, "on axes that an earlier plot has coloured, the hole of an unbounded component is not drawn white",
+                    where=fn.where(), detail=f"hole patch colour {holes[0][2] if holes else None!r} on a background that is already "
+                                             f"'#BFFFBF': the unbounded component looks like the whole plane")
+        else:
+            out.ok(fn.qname, "an unbounded component is a white hole also on axes coloured by an earlier plot", where=fn.where())
         # a single connected component (not Disjoint): a ring, whose `subshapes` are the outer disk and the complement
         # of the hole -- factors of an intersection, not components to be drawn one by one
         ring = Comp("ring", 5.0, [Cur("jouter", 1), Cur("jhole", -1)])
